@@ -29,7 +29,17 @@ def run_one(m):
     scratch = tempfile.mkdtemp(prefix='verif-mut-', dir='/var/tmp')
     try:
         shutil.copytree(os.path.join(REPO, 'include'), os.path.join(scratch, 'include'))
-        edits = m['edits'] if 'edits' in m else [(m['file'], m['old'], m['new'])]
+        if 'patch' in m:
+            # a patch file relative to /verif, applied (or reverse-applied) to the scratch copy
+            cmd = ['patch', '-p1', '-s', '-d', scratch, '-i', os.path.join(VERIF, m['patch'])]
+            if m.get('reverse'):
+                cmd.insert(1, '-R')
+            r = subprocess.run(cmd, stdout=subprocess.PIPE, stderr=subprocess.STDOUT, text=True)
+            if r.returncode != 0:
+                return (m, 'skipped', 'patch does not apply: ' + r.stdout[-200:])
+            edits = []
+        else:
+            edits = m['edits'] if 'edits' in m else [(m['file'], m['old'], m['new'])]
         for (rel, old, new) in edits:
             p = os.path.join(scratch, rel)
             with open(p) as f:
